@@ -239,6 +239,13 @@ class PWLCalibration(keras.layers.Layer):
     self.monotonicity = monotonicity
     self.convexity = convexity
     self.is_cyclic = is_cyclic
+    clamped = pwl_calibration_lib.BoundConstraintsType.CLAMPED
+    if (not utils.canonicalize_monotonicity(self.monotonicity) and
+        clamped in (self._output_min_constraints,
+                    self._output_max_constraints)):
+      raise ValueError("Clamping is not implemented for non monotonic "
+                       "functions: 'clamp_min'/'clamp_max' require "
+                       "'monotonicity' to be set.")
 
     if kernel_initializer == "equal_heights":
       self.kernel_initializer = UniformOutputInitializer(
